@@ -367,6 +367,176 @@ def maskbit_defs(tree, consts):
 
 
 # ---------------------------------------------------------------------------------------------------------------------
+# (6) VMNetwork.reattach_interface (avocado_i2n/vmnet/network.py) -> lean/I2N/Extracted/GenNetwork.lean
+#
+# The function assigns to its parameters `client_nic` / `server_nic` (pygen refuses that), so it is CUT here:
+#
+#   head (pinned verbatim)      the four statements that resolve the nic roles to the two interface objects: in the model
+#                               these are the ids `c` (interface) and `r` (ref_interface)
+#   proxy selection             `proxy_interface = None` / `if <test>: proxy_interface = self.interfaces[<server>.<proxy_nic>]`
+#                               matched structurally, the TEST is translated (genReattachProxySelected); a nic name of the
+#                               server is the id of the interface object registered under it (`none` = the empty name,
+#                               `some r` = the resolved `server_nic`: integrate_node registers one new object per name)
+#   `netconfig = ref_interface.netconfig` (+ a logging.debug)   pinned: `tn`
+#   attach part (translated)    every statement up to `if proxy_interface is not None:` (genReattachAttach)
+#   proxy part (translated)     the body of that `if` (genReattachProxyPart); the `if` itself is matched structurally
+#   tail (pinned verbatim)      the three `self.params[...] = ...` updates and a logging.debug: no effect on the registry
+#
+# Inside the translated parts every statement is ONE attribute store / `del` / call on the object heap; each is pinned
+# to the composition of the primitive heap actions of the prelude that it spells (order, presence and the branch are
+# translated; a statement that is not in the table is refused).
+
+NETWORK = "avocado_i2n/vmnet/network.py"
+
+NETWORK_PRELUDE = [
+    "/-- `<interface>.netconfig` used as an object (the model's `assertion` when it is None; Python: AttributeError) -/",
+    "def ncOf (i : Nat) : NetM Nat := fun s => match (s.iface i).nc with | some n => .ok (n, s) | none => .error .assertion",
+    "/-- `<interface>.ip` -/",
+    "def ipOf (i : Nat) : NetM Nat := fun s => .ok ((s.iface i).ip, s)",
+    "/-- `del <netconfig n>.interfaces[ip]` (KeyError when missing) -/",
+    "def delIfs (n ip : Nat) : NetM Unit := fun s =>",
+    "  if !hasKey ip (s.nc n).ifs then .error .keyError else .ok ((), s.setNc n (fun k => { k with ifs := adel ip k.ifs }))",
+    "/-- `<netconfig n>.get_allocatable_address()` (the hand model's `allocate`; its own tie: genAllocate) -/",
+    "def allocM (n : Nat) : NetM Nat := fun s =>",
+    "  match allocate (s.nc n) with | .error e => .error e | .ok (a, k) => .ok (a, s.setNc n (fun _ => k))",
+    "/-- `<interface i>.ip = a` -/",
+    "def setIp (i a : Nat) : NetM Unit := fun s => .ok ((), s.setIface i (fun f => { f with ip := a }))",
+    "/-- `<interface i>.netconfig = <netconfig n>` -/",
+    "def setNcRef (i n : Nat) : NetM Unit := fun s => .ok ((), s.setIface i (fun f => { f with nc := some n }))",
+    "/-- a nic name of the server: the id of the interface object registered under it, `none` = the empty name -/",
+    "abbrev NicName := Option Nat",
+]
+
+REATTACH_ARGS = ["self", "client", "server", "client_nic", "server_nic", "proxy_nic"]
+REATTACH_DEFAULTS = ["'internet_nic'", "'lan_nic'", "''"]
+REATTACH_HEAD = """
+client_nic = self.nodes[client.name].params[client_nic]
+server_nic = self.nodes[server.name].params[server_nic]
+interface = self.interfaces['%s.%s' % (client.name, client_nic)]
+ref_interface = self.interfaces['%s.%s' % (server.name, server_nic)]
+"""
+REATTACH_PROXY_NONE = "proxy_interface = None"
+REATTACH_PROXY_GET = "proxy_interface = self.interfaces['%s.%s' % (server.name, proxy_nic)]"
+REATTACH_NETCONFIG = "netconfig = ref_interface.netconfig"
+REATTACH_TAIL = """
+self.params['netdst_%s_%s' % (client_nic, client.name)] = netconfig.netdst
+self.params['ip_%s_%s' % (client_nic, client.name)] = interface.ip
+self.params['netmask_%s_%s' % (client_nic, client.name)] = netconfig.netmask
+"""
+
+REATTACH_ATTACH_STMTS = {
+    "del interface.netconfig.interfaces[interface.ip]": "delIfs (← ncOf c) (← ipOf c)",
+    "interface.ip = netconfig.get_allocatable_address()": "setIp c (← allocM tn)",
+    "netconfig.add_interface(interface)": "genAddInterface tn c",
+}
+REATTACH_PROXY_STMTS = {
+    "del netconfig.interfaces[interface.ip]": "delIfs tn (← ipOf c)",
+    "ref_interface.ip = proxy_interface.ip": "setIp r (← ipOf pi)",
+    "interface.ip = proxy_interface.netconfig.get_allocatable_address()": "setIp c (← allocM (← ncOf pi))",
+    "interface.netconfig = proxy_interface.netconfig": "setNcRef c (← ncOf pi)",
+}
+
+REATTACH_DOC = "`VMNetwork.reattach_interface` of avocado_i2n/vmnet/network.py, cut by harness/pygen_pxnet.py: "
+
+
+def _is_log(st):
+    return isinstance(st, ast.Expr) and isinstance(st.value, ast.Call) and pygen._dotted(st.value.func) == "logging.debug"
+
+
+def _pinned(stmts, text, where, what):
+    if pygen.dump_stmts(stmts) != pygen.norm_block(text):
+        raise Unsupported(f"{where}: {what} changed (pinned verbatim)")
+
+
+def reattach_defs(tree, consts):
+    fn = pygen.find_function(tree, "VMNetwork.reattach_interface")
+    _args(fn, REATTACH_ARGS)
+    if [ast.unparse(d) for d in fn.args.defaults] != REATTACH_DEFAULTS:
+        raise Unsupported("reattach_interface: the defaults of client_nic / server_nic / proxy_nic changed")
+    where = f"reattach_interface:{fn.lineno}"
+    body = _body(fn)
+    if len(body) < 12:
+        raise Unsupported(f"{where}: the function has {len(body)} statements, it no longer has the shape of the cut")
+    _pinned(body[:4], REATTACH_HEAD, where, "the head that resolves the nic roles to interface objects")
+    _pinned(body[4:5], REATTACH_PROXY_NONE, where, "`proxy_interface = None`")
+    sel = body[5]
+    if not isinstance(sel, ast.If) or sel.orelse:
+        raise Unsupported(f"{where}: the proxy selection is no longer `if <test>: proxy_interface = …` without an else")
+    _pinned(sel.body, REATTACH_PROXY_GET, where, "the lookup of the proxy interface")
+    for n in ast.walk(sel.test):
+        if isinstance(n, (ast.Call, ast.NamedExpr, ast.Attribute, ast.Subscript)):
+            raise Unsupported(f"{where}: the proxy selection test is no longer a test on the nic names only")
+    _pinned(body[6:7], REATTACH_NETCONFIG, where, "`netconfig = ref_interface.netconfig`")
+    rest = body[7:]
+    if rest and _is_log(rest[0]):
+        rest = rest[1:]
+    # tail: three parameter updates + an optional logging.debug
+    tail_at = next((k for k, st in enumerate(rest) if isinstance(st, ast.Assign)
+                    and ast.unparse(st.targets[0]).startswith("self.params[")), None)
+    if tail_at is None:
+        raise Unsupported(f"{where}: the parameter updates at the end are gone")
+    core, tail = rest[:tail_at], rest[tail_at:]
+    if tail and _is_log(tail[-1]):
+        tail = tail[:-1]
+    _pinned(tail, REATTACH_TAIL, where, "the tail (the three updates of self.params)")
+    if not core or not isinstance(core[-1], ast.If) or core[-1].orelse \
+            or ast.unparse(core[-1].test) != "proxy_interface is not None":
+        raise Unsupported(f"{where}: the statements between `netconfig = …` and the parameter updates no longer end with "
+                          "`if proxy_interface is not None: <proxy part>` (without an else)")
+    attach, proxy = core[:-1], core[-1].body
+    _no_jumps(attach, where)
+    _no_jumps(proxy, where)
+    for st in attach + proxy:
+        for n in ast.walk(st):
+            if isinstance(n, ast.Name) and isinstance(n.ctx, (ast.Store, ast.Del)):
+                raise Unsupported(f"{where}: `{ast.unparse(st)[:60]}` rebinds the local {n.id!r} inside the translated part")
+    sel_fn = _synth("reattach_proxy_selected", ["proxy_nic", "server_nic"], [ast.Return(value=sel.test)], sel)
+    sel_spec = Spec(
+        "genReattachProxySelected", binders=[("r", "Nat"), ("p", "NicName")],
+        params={"proxy_nic": ("p", "NicName"), "server_nic": ("(some r : NicName)", "NicName")}, ret="bool", monad="pure",
+        atoms={"''": ("(none : NicName)", "NicName")}, type_defaults={"NicName": "none"},
+        doc=REATTACH_DOC + "the test of the proxy selection (`server_nic` is the resolved name of the pinned head); a nic "
+                           "name is the id of the interface registered under it, the empty name is `none`")
+    attach_fn = _synth("reattach_attach", [], attach, core[0])
+    attach_spec = Spec("genReattachAttach", binders=[("c", "Nat"), ("tn", "Nat")], params={}, ret="unit", monad="NetM",
+                       stmts=REATTACH_ATTACH_STMTS, ignored_calls=("logging.debug",),
+                       doc=REATTACH_DOC + "the statements between `netconfig = ref_interface.netconfig` and `if "
+                                          "proxy_interface is not None:`; `c` = interface, `tn` = netconfig")
+    proxy_fn = _synth("reattach_proxy_part", [], proxy, core[-1])
+    proxy_spec = Spec("genReattachProxyPart", binders=[("c", "Nat"), ("r", "Nat"), ("tn", "Nat"), ("pi", "Nat")],
+                      params={}, ret="unit", monad="NetM", stmts=REATTACH_PROXY_STMTS, ignored_calls=("logging.debug",),
+                      doc=REATTACH_DOC + "the body of `if proxy_interface is not None:`; `r` = ref_interface, `pi` = "
+                                         "proxy_interface")
+    d1 = pygen.translate(sel_fn, sel_spec, consts)
+    d2 = pygen.translate(attach_fn, attach_spec, consts)
+    d3 = pygen.translate(proxy_fn, proxy_spec, consts)
+    skeleton = [
+        "/-- the skeleton of `reattach_interface` (matched structurally): the pinned head gives the interface objects `c`,",
+        "`r`; `proxy_interface` is None unless the selection test holds; `netconfig = ref_interface.netconfig`; the attach",
+        "part; `if proxy_interface is not None:` the proxy part; the pinned tail does not touch the registry -/",
+        "def genReattach (c r : Nat) (p : NicName) : NetM Unit := do",
+        "  let proxy_interface : Option Nat := if genReattachProxySelected r p then p else none",
+        "  let tn ← ncOf r",
+        "  genReattachAttach c tn",
+        "  match proxy_interface with",
+        "  | some pi => genReattachProxyPart c r tn pi",
+        "  | none => pure ()",
+    ]
+    return [d1, d2, d3, skeleton]
+
+
+def network_source(path=None):
+    path = path or pygen._src("PYGEN_NETWORK_SRC", NETWORK)
+    tree = ast.parse(open(path).read(), filename=path)
+    consts = pygen.module_constants(tree)
+    defs = [NETWORK_PRELUDE]
+    defs += reattach_defs(tree, consts)
+    return pygen.render_file("harness/pygen_pxnet.py:extract_net (called by harness/props/c18.py:extract) from "
+                             "avocado_i2n/vmnet/network.py", ["I2N.Extracted.GenNet"], "I2N.Extracted.GenNetwork",
+                             ["I2N.Net", "I2N.Extracted.GenNet"], defs)
+
+
+# ---------------------------------------------------------------------------------------------------------------------
 
 def net_source(path=None):
     path = path or pygen._src("PYGEN_NETCONFIG_SRC", NETCONFIG)
@@ -383,10 +553,12 @@ def net_source(path=None):
 
 
 def extract_net(ctx=None):
-    return pygen.write_if_changed(pygen._lean_path("GenNet.lean"), net_source())
+    a = pygen.write_if_changed(pygen._lean_path("GenNet.lean"), net_source())
+    b = pygen.write_if_changed(pygen._lean_path("GenNetwork.lean"), network_source())
+    return a or b
 
 
-SOURCES = {"net": net_source}
+SOURCES = {"net": net_source, "network": network_source}
 
 
 if __name__ == "__main__":
